@@ -143,6 +143,33 @@ def main(argv):
                 surviving.append('%s/%s (%s): %s %s' % (uname, mname, item, status, reasons))
     if surviving:
         undecided.append(('canaries', ['canary mutant not rejected (contract lost its teeth): ' + s for s in surviving]))
+    # native exploration through the executable contract mirrors: thorough tier, and as a fall-back when a unit is
+    # undecided (so that a change which also breaks the extraction shape can still be caught with a concrete input)
+    native = []
+    from . import ce as CE
+    und_units = set(o.name for o in outcomes if o.status == 'undecided')
+    if tier == 'thorough' or und_units:
+        seen = set()
+        for (uname, fn), cands in CE.SEARCH.items():
+            if uname not in [o.name for o in outcomes]:
+                continue
+            if tier != 'thorough' and uname not in und_units:
+                continue
+            for (module, contract, types) in cands:
+                if (module, contract) in seen:
+                    continue
+                seen.add((module, contract))
+                r = CE.run_search(module, contract, types, seed, n=int(os.environ.get('VERIF_SEARCH_CASES', '2000000' if tier == 'thorough' else '400000')))
+                native.append({'contract': module + '::' + contract, 'unit': uname, 'result': (r.get('stdout') or r.get('error') or '')[:160]})
+                if r.get('found') is not None:
+                    binp = r['cmd'].split()[0]
+                    rcmd = ' '.join([binp, module, contract] + [str(x) for x in r['found']])
+                    fl = {'unit': uname, 'function': contract, 'message': 'native search through the executable contract mirror found a violating input',
+                          'clause': {'kind': 'mirror', 'tag': 'P %s %s' % (prop, contract), 'text': 'executable restatement of the Verus contract (hooks/%s.rs)' % module},
+                          'rendered': r.get('stdout'), 'where': [{'origin': 'hooks/%s.rs' % module, 'text': contract, 'label': None, 'out_line': 0}],
+                          'ce': {'inputs': {'module': module, 'contract': contract, 'types': types.split(','), 'args': r['found'], 'found_by': 'native boundary-biased random search, seed %d' % seed},
+                                 'replay': {'cmd': rcmd, 'stdout': r.get('verdict')}, 'cmd': rcmd}}
+                    violations.append((uname, fl, 'native-search'))
     if kout:
         for kv in kout['violations']:
             k = next((k for k in known if finding_matches(k, prop, kv['unit'], kv)), None)
@@ -155,6 +182,7 @@ def main(argv):
 
     # ---------------- evidence
     ev = build_evidence(prop, tier, seed, outcomes, kout, mutant_results, violations, undecided, known_hits, time.time() - t0)
+    ev['coverage']['native_search_exploration'] = native
     os.makedirs(EVID, exist_ok=True)
     with open(os.path.join(EVID, prop + '.json'), 'w') as f:
         json.dump(ev, f, indent=1)
